@@ -375,15 +375,16 @@ impl HsWorld {
 
     /// one end of connection `i` goes away for a reason outside the election (transport failure,
     /// the session gave up): the session exits, the NodeServer forgets it. op `hfailA|hfailB <id>`
-    fn fail(&mut self, on_a: bool, i: usize) -> String {
+    async fn fail(&mut self, on_a: bool, i: usize, failed: bool) -> String {
         let id = if on_a { self.ls[i].ida } else { self.ls[i].idb };
         let open = if on_a { self.ls[i].open_a } else { self.ls[i].open_b };
         if open {
+            // through the REAL supervision handler of the NodeServer (ActorTerminated / ActorFailed)
             if on_a {
-                self.pa.close(id);
+                self.pa.session_exit(id, failed).await;
                 self.ls[i].open_a = false;
             } else {
-                self.pb.close(id);
+                self.pb.session_exit(id, failed).await;
                 self.ls[i].open_b = false;
             }
         }
@@ -537,7 +538,7 @@ async fn hs_case(log: &mut Log, st: &mut Stats, rng: &mut Rng) {
             for _ in 0..rng.range(0, 6) {
                 let i = rng.below(m as u64) as usize;
                 if with_failures && rng.chance(1, 4) {
-                    let op = w.fail(rng.chance(1, 2), i);
+                    let op = w.fail(rng.chance(1, 2), i, rng.chance(1, 2)).await;
                     st.bump("hs_fail");
                     log.rec(op, w.obs());
                 } else {
@@ -757,7 +758,7 @@ async fn replay_ops(log: &mut Log, st: &mut Stats, path: &str) {
                     let on_a = *k == "hfailA";
                     let old: u64 = old.parse().unwrap_or(0);
                     if let Some(i) = hs_old.iter().position(|(ia, ib)| if on_a { *ia == old } else { *ib == old }) {
-                        let op = w.fail(on_a, i);
+                        let op = w.fail(on_a, i, false).await;
                         log.rec(op, w.obs());
                     }
                 }
